@@ -211,12 +211,12 @@ func (s *Sim) adversarialInputs(cfg GenCfg) {
 		s.Swap([]*Coin{c}, Proofs([]*Coin{c}), "exact", "")
 	case k == 6 && len(pend) > 0: // proof locked by a pending melt into another melt
 		c := pend[s.Rng.Intn(len(pend))]
-		if q := s.NewMeltQuote(1000); q != nil {
+		if q := s.advMeltQuote(cfg); q != nil {
 			s.Melt(q, []*Coin{c}, Proofs([]*Coin{c}), lnmodel.PayPlan{Answer: lnmodel.ASucceeded}, "")
 		}
 	case k == 7 && len(spent) > 0: // spent proof into a melt
 		c := spent[s.Rng.Intn(len(spent))]
-		if q := s.NewMeltQuote(1000); q != nil {
+		if q := s.advMeltQuote(cfg); q != nil {
 			in := []*Coin{c}
 			if extra := s.pickFor(q.Amount + q.Reserve); extra != nil {
 				in = append(in, extra...)
@@ -229,6 +229,20 @@ func (s *Sim) adversarialInputs(cfg GenCfg) {
 		ps[1].Amount = ps[1].Amount << 1
 		s.Swap(in, ps, "exact", "tampered-amount")
 	}
+}
+
+// advMeltQuote: the quote an adversarial melt goes to: for an external invoice or, half of the time
+// where the configuration has internal settlement, for an invoice of the mint itself (no payment is made
+// for such a melt; the inputs are checked all the same).
+func (s *Sim) advMeltQuote(cfg GenCfg) *MeltQ {
+	if cfg.Internal && s.Rng.Intn(2) == 0 {
+		if mq := s.NewMintQuote(1, false); mq != nil {
+			if lq := s.NewInternalMeltQuote(mq); lq != nil {
+				return lq
+			}
+		}
+	}
+	return s.NewMeltQuote(1000)
 }
 
 // hugeQuoteAmounts: amounts at which a conversion to msat in 64 bits wraps around to something
